@@ -40,12 +40,16 @@ CONSTANTS
   Inline,        \* engine.inline # nil (batch readers run the inline pass)
   BatchTX,       \* txConns armed: flushTX addresses by rawSA when present
   Drops,         \* the portable reader may drop a datagram after reading it
-  BothOnHandoff  \* mutant: staged inline reply is added to the burst AND handed off
+  BothOnHandoff, \* mutant: staged inline reply is added to the burst AND handed off
+  Opts           \* EDNS shapes of the packets that run the chain: subset of {"none", "plain", "cookie"}
 
 AllKinds == {"hit", "miss", "malformed", "qr", "badOpcode", "badCounts",
              "panic", "ignoredByChain", "writeHandoff"}
 
-ASSUME Kinds \subseteq AllKinds /\ TXMax >= B /\ Cap <= NSlab
+OptKinds == {"none", "plain", "cookie"}
+ChainKinds == {"hit", "miss", "panic", "ignoredByChain", "writeHandoff"}   \* reach the edns handler
+
+ASSUME Kinds \subseteq AllKinds /\ TXMax >= B /\ Cap <= NSlab /\ Opts \subseteq OptKinds
 
 Slabs   == 1..NSlab
 Pkts    == 1..NPkt
@@ -83,8 +87,9 @@ Allowed(kind, pass) ==
                                                    ELSE {O(TRUE, FALSE, FALSE)}
 
 Range(s) == {s[i] : i \in 1..Len(s)}
-NoPkt == [c |-> None, k |-> "hit"]
+NoPkt == [c |-> None, k |-> "hit", o |-> "none"]
 KindOf(p) == pinfo[p].k
+OptOf(p) == pinfo[p].o
 ClientOf(p) == pinfo[p].c
 
 Init ==
@@ -107,10 +112,10 @@ Init ==
 
 ---------------------------------------------------------------------------
 (* clients *)
-ClientSend(c, k) ==
+ClientSend(c, k, o) ==
   /\ err = "" /\ nsent < NPkt
   /\ nsent' = nsent + 1
-  /\ pinfo' = [pinfo EXCEPT ![nsent + 1] = [c |-> c, k |-> k]]
+  /\ pinfo' = [pinfo EXCEPT ![nsent + 1] = [c |-> c, k |-> k, o |-> o]]
   /\ inbox' = Append(inbox, nsent + 1)
   /\ UNCHANGED <<slab, alloc, idle, ready, leased, inFlight, rpc, rheld, rpend,
                  hpc, cur, burst, fl, out, ov, oout, wire, err>>
@@ -291,6 +296,16 @@ BFinish(r) ==
                /\ UNCHANGED <<cur, out, rpc, err>>
   /\ UNCHANGED <<alloc, idle, leased, inbox, nsent, pinfo, rheld, hpc, burst, fl, wire, oout>>
 
+(* what one pass over the packet in RX does to its slab: an in-place        *)
+(* rejection never reaches the chain; everything else enters the edns       *)
+(* handler, which fills the job-owned writer slot, builds the reply's OPT   *)
+(* from it if a reply is written, and zeroes it on the way out              *)
+Served(s, wrote) ==
+  IF KindOf(s.rx) \notin ChainKinds
+    THEN (IF wrote THEN OpStage(s) ELSE s)
+    ELSE LET e == OpEdnsEnter(s, OptOf(s.rx)) IN
+         OpEdnsLeave(IF wrote THEN OpStageOpt(e, OptOf(s.rx)) ELSE e)
+
 (* the serve of the job the holder h has in hand: header accept, chain, tail *)
 PassOf(h, j) == IF h \in BReaders THEN "inline"
                 ELSE IF slab[j].replay THEN "replay" ELSE "worker"
@@ -302,7 +317,7 @@ Chain(h) ==
   /\ LET j == cur[h] IN
      \E o \in Allowed(KindOf(slab[j].rx), PassOf(h, j)) :
        /\ out' = [out EXCEPT ![h] = o]
-       /\ slab' = IF o.wrote THEN [slab EXCEPT ![j] = OpStage(@)] ELSE slab
+       /\ slab' = [slab EXCEPT ![j] = Served(@, o.wrote)]
   /\ UNCHANGED <<alloc, idle, ready, leased, inFlight, inbox, nsent, pinfo, rpc, rheld, rpend,
                  hpc, cur, burst, fl, ov, oout, wire, err>>
 
@@ -396,6 +411,8 @@ WMidFlush(w) ==         \* udpJob.FlushStaged from the decoded fallback, before 
 Datagram(j, s, how) ==
   [to |-> IF how = "now" THEN s.raddr ELSE SendDest(s, BatchTX),
    tx |-> IF how = "now" THEN s.rx ELSE s.tx,
+   ck |-> IF how = "now" THEN ReplyCookie(OpEdnsEnter(s, OptOf(s.rx)), OptOf(s.rx)) ELSE s.txck,
+   want |-> IF s.rx # None /\ OptOf(s.rx) = "cookie" THEN s.rx ELSE None,
    rx |-> s.rx,
    from |-> IF s.rx = None THEN None ELSE ClientOf(s.rx),
    kind |-> IF s.rx = None THEN "none" ELSE KindOf(s.rx),
@@ -405,7 +422,8 @@ Datagram(j, s, how) ==
 Own(d)    == d.rx # None /\ d.tx = d.rx /\ d.to = d.from
 Earned(d) == d.wrote /\ d.kind \notin SilentKinds
 Once(d)   == d.nth = 1
-Sound(d)  == Own(d) /\ Earned(d) /\ Once(d)
+OptOwn(d) == d.ck = d.want
+Sound(d)  == Own(d) /\ Earned(d) /\ Once(d) /\ OptOwn(d)
 (* the ghost keeps the datagrams that broke a predicate, so the predicates  *)
 (* below are state invariants without a growing history: each holds at     *)
 (* every send of every behaviour iff it holds of `wire` in every state     *)
@@ -450,8 +468,9 @@ OvChain(j) ==
        /\ oout' = [oout EXCEPT ![j] = o]
        /\ IF o.wrote
             THEN /\ wire' = Record(<<Datagram(j, slab[j], "now")>>)
-                 /\ slab' = [slab EXCEPT ![j] = OpWriteNow(@)]
-            ELSE UNCHANGED <<wire, slab>>
+                 /\ slab' = [slab EXCEPT ![j] = OpWriteNow(Served(@, FALSE))]
+            ELSE /\ wire' = wire
+                 /\ slab' = [slab EXCEPT ![j] = Served(@, FALSE)]
   /\ UNCHANGED <<alloc, idle, ready, leased, inFlight, inbox, nsent, pinfo, rpc, rheld, rpend,
                  hpc, cur, burst, fl, out, ov, err>>
 
@@ -469,7 +488,9 @@ OvEnd(j) ==
 
 ---------------------------------------------------------------------------
 Next ==
-  \/ \E c \in Clients, k \in Kinds : ClientSend(c, k)
+  \/ \E c \in Clients, k \in Kinds, o \in OptKinds :
+       /\ (IF k \in ChainKinds THEN o \in Opts ELSE o = "none")
+       /\ ClientSend(c, k, o)
   \/ \E r \in PReaders : PTakeAdd(r) \/ PTakeCheck(r) \/ PShed(r) \/ PReadInto(r)
                          \/ PReadDrop(r) \/ PEnqueue(r)
   \/ \E r \in BReaders : BTakeAdd(r) \/ BTakeCheck(r) \/ BArmed(r) \/ BShed(r) \/ BRecv(r)
@@ -511,6 +532,15 @@ ReleaseOnce == err = ""
 
 (* a Send(j) transmits bytes produced for j.rx, to the address j.rx came from *)
 ReplyIsOwn == \A i \in 1..Len(wire) : Own(wire[i])
+
+(* a reply's OPT options derive only from the request it answers: a COOKIE  *)
+(* option appears iff the packet in RX carried a client cookie and is built *)
+(* from that packet's own cookie bytes                                      *)
+ReplyOptIsOwn == \A i \in 1..Len(wire) : OptOwn(wire[i])
+
+(* between requests the job-owned edns writer slot holds nothing of any     *)
+(* request (the hazard ReplyOptIsOwn's failure grows from)                  *)
+SlotIsZeroBetweenRequests == \A j \in Slabs : slab[j].ew = None
 
 (* a request decided in silence causes no datagram *)
 SilentStaysSilent == \A i \in 1..Len(wire) : Earned(wire[i])
